@@ -225,11 +225,11 @@ def make_twins(spec, cases, seed, traces=None):
                 f.pop("plan", None)
             out.append((c2, []))
         elif kind == "permute":
-            tw = permute_case(c, traces[idx], rng)
             if c.get("fixed_twin"):
-                # a corpus witness carries its own reordering (the random stream above is left as it was)
-                tw = (copy.deepcopy(c["fixed_twin"]["case"]), list(c["fixed_twin"]["perm"]))
-            out.append(tw)
+                # a corpus witness carries its own reordering (and draws nothing from the random stream)
+                out.append((copy.deepcopy(c["fixed_twin"]["case"]), list(c["fixed_twin"]["perm"])))
+            else:
+                out.append(permute_case(c, traces[idx], rng))
         elif kind == "encode":
             out.append((encode_case(c, rng), []))
     return out
